@@ -7,13 +7,19 @@ COMB = z3.Function("comb2", LInt.sort(), LP.sort())
 def build(reg):
     reg.type("Int", INT)
     xs = z3.Const("xs_", LInt.sort()); i, j, p = z3.Ints("i_ j_ p_")
+    CI = z3.Function("comb2_i", LInt.sort(), z3.IntSort(), z3.IntSort()); CJ = z3.Function("comb2_j", LInt.sort(), z3.IntSort(), z3.IntSort())
+    CP = z3.Function("comb2_p", LInt.sort(), z3.IntSort(), z3.IntSort(), z3.IntSort())
+    # skolemised form (witness functions instead of nested existentials) so that pure E-matching decides the clauses
     reg.axioms += [
-      ("combinations2.each", z3.ForAll([xs, p], z3.Implies(z3.And(0 <= p, p < LP.len(COMB(xs))), z3.Exists([i, j], z3.And(0 <= i, i < j, j < LInt.len(xs), LP.at(COMB(xs), p) == P.mk(LInt.at(xs, i), LInt.at(xs, j))))), patterns=[LP.at(COMB(xs), p)]),
+      ("combinations2.each", z3.ForAll([xs, p], z3.Implies(z3.And(0 <= p, p < LP.len(COMB(xs))),
+            z3.And(0 <= CI(xs, p), CI(xs, p) < CJ(xs, p), CJ(xs, p) < LInt.len(xs), LP.at(COMB(xs), p) == P.mk(LInt.at(xs, CI(xs, p)), LInt.at(xs, CJ(xs, p))))), patterns=[LP.at(COMB(xs), p)]),
        "itertools.combinations(xs, 2) yields (xs[i], xs[j]) with i < j"),
-      ("combinations2.all", z3.ForAll([xs, i, j], z3.Implies(z3.And(0 <= i, i < j, j < LInt.len(xs)), z3.Exists([p], z3.And(0 <= p, p < LP.len(COMB(xs)), LP.at(COMB(xs), p) == P.mk(LInt.at(xs, i), LInt.at(xs, j))))),
+      ("combinations2.all", z3.ForAll([xs, i, j], z3.Implies(z3.And(0 <= i, i < j, j < LInt.len(xs)),
+            z3.And(0 <= CP(xs, i, j), CP(xs, i, j) < LP.len(COMB(xs)), LP.at(COMB(xs), CP(xs, i, j)) == P.mk(LInt.at(xs, i), LInt.at(xs, j)))),
        patterns=[z3.MultiPattern(LInt.at(xs, i), LInt.at(xs, j), COMB(xs))]), "... for every such i < j"),
       ("combinations2.len", z3.ForAll([xs], LP.len(COMB(xs)) >= 0, patterns=[COMB(xs)]), "")]
     reg.native_specfuns["comb2"] = dict(smt=lambda ex, a: Val(LP, COMB(a.z)), rt=None)
+    reg.native_specfuns["comb2_p"] = dict(smt=lambda ex, a, i_, j_: Val(INT, CP(a.z, i_.z, j_.z)), rt=None)     # witness: position of (xs[i], xs[j]) in combinations(xs, 2)
     def hook(ex, n, st, pc):
         if not isinstance(n, ast.Call): return None
         src = ast.unparse(n).replace(" ", "")
@@ -39,7 +45,7 @@ def build(reg):
     mc = reg.module("gcmpy/motif_generators/clique_motif.py")
     mc.fn("clique_motif", params={"vertices": LInt}, ret=LP,
           ensures={"only_pairs_i_lt_j": "forall(p, 0, len(result), exists(i, 0, len(vertices), exists(j, i + 1, len(vertices), result[p] == (vertices[i], vertices[j]))))",
-                   "all_pairs": "forall(i, 0, len(vertices), forall(j, i + 1, len(vertices), exists(p, 0, len(result), result[p] == (vertices[i], vertices[j]))))"})
+                   "all_pairs": "forall(i, 0, len(vertices), forall(j, i + 1, len(vertices), 0 <= comb2_p(vertices, i, j) and comb2_p(vertices, i, j) < len(result) and result[comb2_p(vertices, i, j)] == (vertices[i], vertices[j])))"})
     my = reg.module("gcmpy/motif_generators/cycle_motif.py")
     my.fn("cycle_motif", params={"vertices": LInt}, ret=LP, requires={"nonempty": "len(vertices) >= 1"},
           ensures={"len": "len(result) == len(vertices)", "consecutive": "forall(p, 0, len(vertices) - 1, result[p] == (vertices[p], vertices[p + 1]))",
